@@ -161,7 +161,8 @@ class Ctx:
     def all_inputs(self):
         d = {}
         for u in self.units:
-            d.update(u.inputs)
+            for n, v in u.inputs.items():
+                d[u.prefix + n] = v
         return d
 
     def _input_at(self, name, var, level):
